@@ -359,10 +359,7 @@ pub fn configs(thorough: bool) -> Vec<Cfg> {
                     for jobs in [1usize, 2, 4] {
                         for verbose in [false, true] {
                             for template in ["T1", "T2", "T3", "T4", "T5"] {
-                                // the full product on T5 (small); the large templates with a reduced flag product
-                                if template != "T5" && (verbose || jobs == 2) && !(delete && exclude == "*.x") {
-                                    continue;
-                                }
+                                // the complete product of the plan (direction x delete x exclude x jobs x verbose x template)
                                 v.push(Cfg { dir, delete, exclude, jobs, verbose, template });
                             }
                         }
